@@ -19,6 +19,9 @@ analysis (RQA) and recurrence network analysis.
 """
 
 # array object and fast numerics
+from typing import Tuple
+from collections.abc import Hashable
+
 import numpy as np
 
 from ..core import Network
@@ -150,6 +153,13 @@ class JointRecurrenceNetwork(JointRecurrencePlot, Network):
         else:
             raise ValueError("Delay value (lag) must not exceed length of \
                              time series!")
+
+    def __cache_state__(self) -> Tuple[Hashable, ...]:
+        # both parents contribute (the MRO alone would pick the plot's state);
+        # the plot is set up and queried before `Network.__init__()` has run
+        network_state = (
+            Network.__cache_state__(self) if hasattr(self, "_mut_A") else ())
+        return JointRecurrencePlot.__cache_state__(self) + network_state
 
     def __str__(self):
         """
